@@ -5,43 +5,6 @@ Record case := { k_fam : family; k_base : str; k_dflt : option value; k_steps : 
                  k_twin : option (list input * obs);
                  k_object : bool (* given through parse_object instead of argv *) }.
 
-Fixpoint value_eqb (n : nat) (a b : value) : bool :=
-  match n with 0 => false | S n' =>
-  match a, b with
-  | VInt x, VInt y => Z.eqb x y
-  | VStr x, VStr y => str_eqb x y
-  | VNull, VNull => true
-  | VSpec c1 i1 d1, VSpec c2 i2 d2 =>
-      str_eqb c1 c2
-      && list_eqb (fun p q => str_eqb (fst p) (fst q) && value_eqb n' (snd p) (snd q)) i1 i2
-      && list_eqb (fun p q => str_eqb (fst p) (fst q) && value_eqb n' (snd p) (snd q)) d1 d2
-  | _, _ => false
-  end end.
-
-Definition arg_eqb (a b : arg) : bool :=
-  match a, b with
-  | AInt x, AInt y => Z.eqb x y
-  | AStr x, AStr y => str_eqb x y
-  | ANull, ANull => true
-  | ARef i, ARef j => Nat.eqb i j
-  | _, _ => false
-  end.
-Definition kw_eqb := list_eqb (fun (p q : str * arg) => str_eqb (fst p) (fst q) && arg_eqb (snd p) (snd q)).
-Definition log_eqb := list_eqb (fun (p q : entry) => str_eqb (fst p) (fst q) && kw_eqb (snd p) (snd q)).
-
-Definition io_eqb (a b : inst_obs) : bool :=
-  match a, b with
-  | IOk r l, IOk r' l' => arg_eqb r r' && log_eqb l l'
-  | ITypeErr, ITypeErr => true
-  | _, _ => false
-  end.
-Definition obs_eqb (a b : obs) : bool :=
-  match a, b with
-  | ORej, ORej => true
-  | OAcc v io, OAcc v' io' => value_eqb 60 v v' && io_eqb io io'
-  | _, _ => false
-  end.
-
 Fixpoint raw_eqb (n : nat) (a b : raw) : bool :=
   match n with 0 => false | S n' =>
   match a, b with
@@ -66,10 +29,12 @@ Definition obs_ok (F : family) (base : str) (dflt : option value) (steps : list 
             | _, _ => true
             end
   | OAcc v io =>
-      valid 60 F base v &&
+      valid F base v &&
       match io with
       | IOk root log => inst_ok F v root log
-      | ITypeErr => negb (instantiable 60 F v)     (* only an abstract class may fail to construct *)
+      | ITypeErr => negb (instantiable F v && dk_accepted F v)
+          (* only an abstract class, or a dict_kwargs key the callable cannot take (CPython call binding
+             of the prescribed call Class( **init_args, **dict_kwargs )), may fail to construct *)
       | IOther => false
       end
   | OOther => false
@@ -96,3 +61,17 @@ Definition judge1 (c : case) : verdict :=
      v_spec := fam_wf (k_fam c) && obs_ok (k_fam c) (k_base c) (k_dflt c) (k_steps c) (k_obs c) && twin_ok c |}.
 
 Definition judge (cs : list case) := judge_all judge1 cs.
+
+(* ---- after fixes/C14-nested-null-restringified.patch has been applied ---------------------------
+   Set JUDGE = "judge_fixed" in tie/props/c14.py: the model is then the one that hands the loaded value
+   down unchanged (run_fixed), no finding class is left, any recurrence is a VIOLATION. *)
+Definition judge1_fixed (c : case) : verdict :=
+  {| v_model := obs_eqb (run_fixed (k_fam c) (k_base c) (k_dflt c) (k_steps c)) (k_obs c)
+                && match k_twin c with
+                   | Some (tw, o) => obs_eqb (run_fixed (k_fam c) (k_base c) (k_dflt c) tw) o
+                   | None => true
+                   end;
+     v_class := 0;
+     v_spec := fam_wf (k_fam c) && obs_ok (k_fam c) (k_base c) (k_dflt c) (k_steps c) (k_obs c) && twin_ok c |}.
+
+Definition judge_fixed (cs : list case) := judge_all judge1_fixed cs.
